@@ -1,12 +1,17 @@
 // c06: the parser is total — it terminates and fails only with located parse errors.
 //
 // G  generators (gen.go): corpus, bounded-exhaustive token sequences, truncations / single-byte mutations /
-//    insertions of valid expressions, number- and string-scanner words, invalid UTF-8, seeded random.
+//
+//	insertions of valid expressions, number- and string-scanner words, invalid UTF-8, seeded random.
+//
 // D  direct check on the implementation (this file, checkParse / checkParseType): every call runs in a child
-//    process under a deadline (worker.go); a timeout, a Go runtime fault (raw or wrapped as a parse error),
-//    a non-reported panic or a location outside the input is a violation with that input as the replay.
+//
+//	process under a deadline (worker.go); a timeout, a Go runtime fault (raw or wrapped as a parse error),
+//	a non-reported panic or a location outside the input is a violation with that input as the replay.
+//
 // M  model tie (emit.go): a sample of the inputs with the observed result (class, line, column, value,
-//    token stream) as Gallina terms for coq/Corr/CorrC06.v.
+//
+//	token stream) as Gallina terms for coq/Corr/CorrC06.v.
 package main
 
 import (
@@ -322,7 +327,7 @@ func families(cfg *lib.Config, rng *lib.Rng) []family {
 	{
 		var ws []string
 		wordsOver(stringAlphabet, sc(3, 4), func(w string) {
-			ws = append(ws, "'"+w+"'", "\""+w+"\"", "/"+w+"/", "'"+w, "1 '"+w+"' ]")
+			ws = append(ws, "'"+w+"'", "\""+w+"\"", "/"+w+"/", "'"+w, "1 '"+w+"' ]", "1 /"+w+"/ ]")
 		})
 		add("strings", "parse", sc(400, 3000), ws)
 	}
